@@ -265,7 +265,7 @@ func histMore(f []string, node func(string) *gtree.Node, massive bool) (string, 
 				opts = append(opts, gtree.WithDryRun())
 			}
 			if f[3] != "-" {
-				opts = append(opts, gtree.WithFileExtensions(plusList(f[3])))
+				opts = append(opts, extOption(f[3]))
 			}
 			if f[4] != "-" {
 				opts = append(opts, gtree.WithTargetDir(unhex(f[4])))
@@ -284,7 +284,7 @@ func histMore(f []string, node func(string) *gtree.Node, massive bool) (string, 
 				opts = append(opts, gtree.WithDryRun())
 			}
 			if f[2] != "-" {
-				opts = append(opts, gtree.WithFileExtensions(plusList(f[2])))
+				opts = append(opts, extOption(f[2]))
 			}
 			if f[3] != "-" {
 				opts = append(opts, gtree.WithTargetDir(unhex(f[3])))
